@@ -33,7 +33,7 @@ RULE = 'one task per (list length n, level: functions / HR file / SPA file); eac
 EXHAUSTIVE = {'quick': True, 'thorough': True}
 
 
-def BOUNDS(tier):
+def BOUNDS(tier):  # (long lists: see tasks())
     return 'list length n = 1..%d, all tie-decision vectors (symbolic); file level: n <= %d, first and second side, 2-agent and 3-agent' % (
         (10, 7) if tier == 'quick' else (13, 10))
 
@@ -44,6 +44,11 @@ def tasks(tier, seed):
     # the generator hands first-side lists over as numpy arrays (fresh scalar object on every element access)
     out += [{'n': n, 'level': 'func', 'np_entries': True} for n in range(1, min(N, 8) + 1)]
     out += [{'n': n, 'level': lv} for n in range(1, NF + 1) for lv in ('hr', 'spa')]
+    # long lists (indices beyond CPython's small-integer cache, identifiers with three digits): the tie decisions at the
+    # start and the end are symbolic, the others follow a fixed pattern
+    for n in ((300,) if tier == 'quick' else (300, 1100)):
+        for pat in (0, 1):
+            out.append({'n': n, 'level': 'func', 'free': [0, n - 3, n - 2, n - 1], 'pattern': pat, 'np_entries': bool(pat)})
     # second engine: CrossHair (crosshair-tool) on the same round trip, fixed n, symbolic booleans
     out += [{'n': n, 'level': 'crosshair'} for n in ((4, 6) if tier == 'quick' else (3, 5, 6, 8))]
     return out
@@ -279,10 +284,16 @@ def run_task(task):
 
     def body():
         e = S.engine()
-        ties = [e.fresh_int('t') for _ in range(n)]
+        free = task.get('free')
+        if free is None:
+            ties = [e.fresh_int('t') for _ in range(n)]
+        else:
+            # pattern 0: no ties; pattern 1: runs of three (1, 1, 0, 1, 1, 0, ...)
+            ties = [e.fresh_int('t') if i in free else (0 if task['pattern'] == 0 else (1 if i % 3 != 2 else 0)) for i in range(n)]
         for t in ties:
-            e.assume((t == 0) | (t == 1))
-        tt = [t.t for t in ties]
+            if S.is_sym(t):
+                e.assume((t == 0) | (t == 1))
+        tt = [t.t if S.is_sym(t) else z3.IntVal(t) for t in ties]
         e.notes['ties'] = tt
         return roundtrip(ns, n, level, ties, np_entries=task.get('np_entries', False))
 
@@ -377,6 +388,8 @@ def describe_task(t):
 
 
 def task_cost(t):
+    if t.get('free'):
+        return 2 ** len(t['free']) * 60
     return 2 ** t['n'] * (3 if t['level'] != 'func' else 1) * (50 if t['level'] == 'crosshair' else 1)
 
 
